@@ -391,13 +391,14 @@ impl TransformerContext {
     }
 
     pub fn inc_depth(&mut self) -> Result<()> {
-        self.current_depth += 1;
-        if self.current_depth > self.config.depth_limit {
+        if self.current_depth >= self.config.depth_limit {
+            // leave the counter as it is: the element is not entered
             return Err(SvgdxError::DepthLimitExceeded(
-                self.current_depth,
+                self.current_depth + 1,
                 self.config.depth_limit,
             ));
         }
+        self.current_depth += 1;
         Ok(())
     }
 
